@@ -33,6 +33,7 @@ type HarnessEntry struct {
 	Stubs         map[string]*ssa.Function // entry-specific redirections
 	Float         string   // "" = E2 with relative-error bound, "mono" = monotonic anchors only
 	Doc           string
+	DPOR          bool // dynamic partial-order reduction (all interleavings, race-driven backtracking)
 	Preempt       int // preemption bound (0 = unbounded, all interleavings with sleep sets)
 	PreemptThorough int // the bound used by the thorough tier
 	Recycle       int // restart solver + term context once this many float-axiom terms have accumulated (0 = default: after every run that used float axioms)
@@ -115,6 +116,7 @@ func (w *Worker) noteStub(name string)       { w.stubsHit[name] = true }
 var outcomeLog = os.Getenv("VERIF_OUTCOMES") != ""
 
 type Driver struct {
+	dporNodes map[string]*dporNode
 	outcomes map[string]int
 	nativeInputs    map[string][]map[string]string // entry -> sampled input assignments of discharged paths
 	nativeValidated int
@@ -351,6 +353,11 @@ func (d *Driver) workerLoop(w *Worker, entry *HarnessEntry, deadline time.Time) 
 		for _, a := range r.alts {
 			d.stack = append(d.stack, a)
 		}
+		if isDPOR(entry) && d.preemptOverride == 0 && !noSleep {
+			for _, a := range d.dporBacktracks(r) {
+				d.stack = append(d.stack, a)
+			}
+		}
 		if time.Now().After(deadline) {
 			d.deadlineHit = true
 			d.stop = true
@@ -491,6 +498,8 @@ func (d *Driver) writeEvidence(workers []*Worker, wall time.Duration, verdict st
 		switch b := d.preemptBound(e); {
 		case e.GoSync:
 			schedBounds[e.Name] = "sequential (go statements run inline)"
+		case isDPOR(e):
+			schedBounds[e.Name] = "all interleavings at synchronisation points (dynamic partial-order reduction with sleep sets)"
 		case b > 0:
 			schedBounds[e.Name] = fmt.Sprintf("all schedules with at most %d preemption(s); switches at blocking points are free", b)
 		default:
